@@ -91,6 +91,7 @@ type Decl struct {
 	IntLike  bool     // underlying int (witness for ~int constraints)
 	Alias    bool
 	Exported bool
+	MultiRef bool // interface whose one method type mentions several packages at once
 }
 
 // Qual resolves the qualifier prefix ("" or "name.") for a package in the current file.
